@@ -500,6 +500,137 @@ def run_attr_history(ctx, i, rng):
                                                                                    got=np.asarray(got).tolist(), want=np.asarray(want).tolist()))
 
 
+FIELD_POOL = ['encoder', 'decoder', 'net', 'head', 'query', 'key', 'z', 'a', 'm1', 'm0']
+CHILD_FLAVOURS = ['class_remat', 'class_jit', 'class_mapv', 'method_remat', 'method_jit', 'cond', 'switch', 'while']
+_CHILD_CLS = {}
+
+
+def attr_child_container(fields, flavour):
+  """A container whose sub-modules arrive as dataclass attributes named `fields` (declaration order = the given order, which is
+  usually not alphabetical), wrapped in / using one lifted transform. Cached per (fields, flavour)."""
+  key = (fields, flavour)
+  if key in _CHILD_CLS:
+    return _CHILD_CLS[key]
+  import flax.linen as nn
+  import jax.numpy as jnp
+
+  def body(self, x):
+    h = x
+    for k, f in enumerate(fields):
+      sub = getattr(self, f)
+      subs = sub if isinstance(sub, tuple) else (sub,)
+      for s_ in subs:
+        h = nn.tanh(s_(h)) + (0.5 + k) * h
+    return h
+
+  if flavour in ('plain', 'class_remat', 'class_jit', 'class_mapv'):
+    call = body
+  elif flavour == 'method_remat':
+    call = nn.remat(body)
+  elif flavour == 'method_jit':
+    call = nn.jit(body)
+  elif flavour == 'cond':
+    def call(self, x):
+      return nn.cond(jnp.sum(x) > -1e9, lambda m, x: body(m, x), lambda m, x: -body(m, x), self, x)
+  elif flavour == 'switch':
+    def call(self, x):
+      return nn.switch(jnp.asarray(1), [lambda m, x: body(m, x) * 2.0, lambda m, x: body(m, x), lambda m, x: -body(m, x)], self, x)
+  else:
+    def call(self, x):
+      if self.is_initializing():
+        return body(self, x)
+      return nn.while_loop(lambda m, c: c[0] < 1, lambda m, c: (c[0] + 1, body(m, c[1])), self, (jnp.asarray(0), x),
+                           carry_variables='stats')[1]
+  from typing import Any
+  cls = type('Container', (nn.Module,), {'__annotations__': {f: Any for f in fields}, '__call__': call})
+  if flavour == 'class_remat':
+    cls = nn.remat(cls)
+  elif flavour == 'class_jit':
+    cls = nn.jit(cls)
+  elif flavour == 'class_mapv':
+    cls = nn.map_variables(cls, 'params', mutable=True)
+  _CHILD_CLS[key] = cls
+  return cls
+
+
+def child_block():
+  if 'Block' in _CHILD_CLS:
+    return _CHILD_CLS['Block']
+  import flax.linen as nn
+  import jax.numpy as jnp
+
+  class Block(nn.Module):
+    width: int
+    gain: float = 1.0
+
+    @nn.compact
+    def __call__(self, x):
+      calls = self.variable('stats', 'calls', lambda: jnp.zeros((), jnp.int32))
+      seen = self.variable('stats', 'seen', lambda: jnp.zeros((), jnp.float32))
+      if not self.is_initializing():
+        calls.value = calls.value + 1
+        seen.value = seen.value + jnp.mean(x) * self.gain
+      return nn.Dense(self.width)(x) * self.gain
+
+  _CHILD_CLS['Block'] = Block
+  return Block
+
+
+def run_attr_children(ctx, i, rng):
+  """Sub-modules passed to a lifted module as dataclass attributes: each must keep reading and writing its OWN variables inside the
+  lifted region, whatever the declaration order of the fields (the scopes are collected and re-bound by two separate traversals)."""
+  import jax
+  from flax.core import unfreeze
+  Block = child_block()
+  flavour = CHILD_FLAVOURS[i % len(CHILD_FLAVOURS)]
+  nf = rng.choice([2, 2, 3])
+  fields = tuple(rng.sample(FIELD_POOL, nf))
+  tuple_field = rng.random() < 0.25
+  shared = rng.random() < 0.3
+  desc = dict(flavour=flavour, fields=fields, alphabetical=list(fields) == sorted(fields), tuple_field=tuple_field, shared_with_outer=shared)
+  with ctx.case('attr_children', i, desc, nontrivial=list(fields) != sorted(fields)):
+    d = 3
+
+    def make(flv):
+      import flax.linen as nn
+      cls = attr_child_container(fields, flv)
+      def subs():
+        out = {}
+        for k, f in enumerate(fields):
+          out[f] = (Block(d, 1.0 + k), Block(d, 3.0 + k)) if (tuple_field and k == 0) else Block(d, 1.0 + k)
+        return out
+      if not shared:
+        return cls(**subs())
+
+      class Outer(nn.Module):
+        @nn.compact
+        def __call__(self, x):
+          mods = {f: (Block(d, 1.0 + k, name='blk_%d' % (9 - k))) for k, f in enumerate(fields)}
+          y = cls(**mods, name='box')(x)
+          return y + mods[fields[0]](x)   # the first block is also used directly by the outer module
+      return Outer()
+
+    x = np.random.default_rng(i).uniform(-1, 1, size=(2, d)).astype(np.float32)
+    rngs = {'params': jax.random.key(i)}
+    plain, lifted = make('plain'), make(flavour)
+    v = unfreeze(plain.init(rngs, x))
+    vl = unfreeze(lifted.init(rngs, x))
+    ctx.op('nn.%s(attribute sub-modules).init' % flavour)
+    ctx.check(shapes(vl) == shapes(v), 'init:tree_structure:attribute_submodules', lambda: dict(case=desc, lifted=shapes(vl), plain=shapes(v)))
+    if flavour in ('class_remat', 'method_remat', 'class_mapv', 'while'):
+      ctx.check(close(vl, v), 'init:values:attribute_submodules', lambda: dict(case=desc))
+    # make the two fields' variables clearly different, then apply twice
+    v['stats'] = jax.tree_util.tree_map(lambda a: a, v['stats'])
+    for rep in range(2):
+      want = plain.apply(v, x, mutable=['stats'])
+      got = lifted.apply(v, x, mutable=['stats'])
+      ctx.op('nn.%s(attribute sub-modules).apply' % flavour)
+      ctx.check(close(got[0], want[0]), 'apply:output:attribute_submodules', lambda: dict(case=desc, got=np.asarray(got[0]).tolist(), want=np.asarray(want[0]).tolist()))
+      ctx.check(close(unfreeze(got[1]), unfreeze(want[1])), 'updates:differ:attribute_submodules',
+                lambda: dict(case=desc, got=repr(unfreeze(got[1]))[:400], want=repr(unfreeze(want[1]))[:400]))
+      v = dict(v, stats=unfreeze(want[1])['stats'])
+
+
 def run_bad_write(ctx, i, rng):
   import jax
   from flax import errors
@@ -535,6 +666,8 @@ def run(ctx):
     run_rng(ctx, i, ctx.rng('rng', i))
   for i in ctx.indices(30 if ctx.tier == 'quick' else 300, 'history'):
     run_history(ctx, i, ctx.rng('history', i))
+  for i in ctx.indices(48 if ctx.tier == 'quick' else 400, 'attr_children'):
+    run_attr_children(ctx, i, ctx.rng('attr_children', i))
   for i in ctx.indices(24 if ctx.tier == 'quick' else 200, 'attr_history'):
     run_attr_history(ctx, i, ctx.rng('attr_history', i))
   for i in ctx.indices(15 if ctx.tier == 'quick' else 60, 'bad_write'):
